@@ -602,6 +602,26 @@ func factsMapRanges(o *out, ps pkgs) {
 	}
 	sort.Strings(conc)
 	o.def("nondeterminismSources", "List (String × String)", joinTuples(conc))
+	// calls that end the process or unwind the stack in the conversion packages
+	var fatal []string
+	for _, pk := range []string{"IG-Parser/core/parser", "IG-Parser/core/tree", "IG-Parser/core/exporter/tabular", "IG-Parser/core/endpoints", "IG-Parser/core/shared"} {
+		p := ps[pk]
+		short := pk[strings.LastIndex(pk, "/")+1:]
+		enclosingFuncs(p, func(fn string, fd *ast.FuncDecl) {
+			ast.Inspect(fd.Body, func(n ast.Node) bool {
+				if call, ok := n.(*ast.CallExpr); ok {
+					f := exprStr(call.Fun)
+					switch f {
+					case "log.Fatal", "log.Fatalf", "log.Fatalln", "log.Panic", "log.Panicf", "log.Panicln", "os.Exit", "panic":
+						fatal = append(fatal, "("+lq(short+"."+fn)+", "+lq(f)+")")
+					}
+				}
+				return true
+			})
+		})
+	}
+	sort.Strings(fatal)
+	o.def("fatalCallSites", "List (String × String)", joinTuples(fatal))
 }
 
 // ---- web ------------------------------------------------------------------------------------
